@@ -118,6 +118,9 @@ fn build_cases(thorough: bool) -> Vec<Case> {
         push("commit", "persist", v, r, vec![text("rpc/commit/persist", v)]);
         let r = send!(env, Commit, |b| b.persist_id(Some(Token::new(v)))?.finish());
         push("commit", "persist-id", v, r, vec![text("rpc/commit/persist-id", v)]);
+        // a follow-up confirmed commit: both tokens in one request
+        let r = send!(env, Commit, |b| b.confirmed(true)?.persist(Some(Token::new("next")))?.persist_id(Some(Token::new(v)))?.finish());
+        push("commit", "confirmed+persist+persist-id", v, r, vec![text("rpc/commit/persist-id", v), text("rpc/commit/persist", "next")]);
         let r = send!(env, CancelCommit, |b| b.persist_id(Some(Token::new(v)))?.finish());
         push("cancel-commit", "persist-id", v, r, vec![text("rpc/cancel-commit/persist-id", v)]);
         let r = send!(env, Get, |b| b.filter(Some(Filter::XPath(v.to_string()))).finish());
